@@ -3451,11 +3451,11 @@ func rulePXRegister(c *Ctx) []Obligation {
 		}
 		if inlined {
 			var whyV string
-			okChecked, whyV = c.validAtStore(p, F, name.String(), imp, nameF)
+			okChecked, whyV = c.validAtStore(p, F, name, imp, nameF)
 			lv = "<validity inlined: " + whyV + ">"
 		} else if !okChecked {
 			// the predicate vouched for another candidate: the stored one may have been tested in place
-			if ok2, why2 := c.validAtStore(p, F, name.String(), imp, nameF); ok2 {
+			if ok2, why2 := c.validAtStore(p, F, name, imp, nameF); ok2 {
 				okChecked = true
 			} else {
 				lv += " <and tested in place: " + why2 + ">"
@@ -3888,7 +3888,35 @@ func (c *Ctx) dotFact(F Facts, hint string) (val, known bool) {
 // unique if the facts say it is ".", or say that it is not a reserved word and that, in one scan of
 // the import table that ran to exhaustion, it differed from the name of every entry — whether the
 // comparisons were made directly or through a path-local set of the taken names.
-func (c *Ctx) validAtStore(p *PXPath, F Facts, n, imp, nameF string) (bool, string) {
+// endsInDigit: the string term certainly ends in a decimal digit (a number appended to it).
+func endsInDigit(t *T) bool {
+	if t == nil {
+		return false
+	}
+	if sv, ok := t.strVal(); ok {
+		return endsInDigitStr(sv)
+	}
+	switch t.Op {
+	case "binop":
+		return t.Aux == "+" && len(t.A) == 2 && endsInDigit(t.A[1])
+	case "call":
+		if t.Aux == "strconv.Itoa" {
+			return true
+		}
+		if (t.Aux == "strconv.FormatInt" || t.Aux == "strconv.FormatUint") && len(t.A) == 2 {
+			b, ok := t.A[1].intVal()
+			return ok && b == 10
+		}
+	}
+	return false
+}
+
+func endsInDigitStr(s string) bool {
+	return s != "" && s[len(s)-1] >= '0' && s[len(s)-1] <= '9'
+}
+
+func (c *Ctx) validAtStore(p *PXPath, F Facts, nt *T, imp, nameF string) (bool, string) {
+	n := nt.String()
 	if v := fact3(F, eqAtom(`"."`, n)); v[1] && v[0] {
 		return true, "the name is \".\""
 	}
@@ -3902,7 +3930,7 @@ func (c *Ctx) validAtStore(p *PXPath, F Facts, n, imp, nameF string) (bool, stri
 		return false, "not known not to be a reserved word"
 	}
 	for _, w := range specialNames {
-		if !F.Has(eqAtom(strconv.Quote(w), n), false) {
+		if !F.Has(eqAtom(strconv.Quote(w), n), false) && !(endsInDigit(nt) && !endsInDigitStr(w)) {
 			return false, "not known to differ from " + strconv.Quote(w)
 		}
 	}
